@@ -7,7 +7,7 @@ EXTENDS Integers, Sequences, FiniteSets, Rat, TLC, Json
 CONSTANTS Mins,       \* set of rationals <<num, den>>
           Spacings,   \* set of positive rationals
           NMin, NMax, \* number of points
-          Orders,     \* fd orders, subset of {2,4,6,8}
+          Orders,     \* requested fd orders; a value outside {2,4,6,8} selects the default 4th-order schemes
           Emit
 
 VARIABLES n, mn, d, p
@@ -15,7 +15,8 @@ vars == <<n, mn, d, p>>
 
 Coord(i)  == RAdd(mn, RMul(RInt(i), d))          \* the i-th grid point
 Max       == Coord(n - 1)
-MaskLen   == p \div 2
+EffOrder  == IF p \in {2, 4, 6, 8} THEN p ELSE 4  \* the schemes actually installed
+MaskLen   == EffOrder \div 2                     \* their half width
 Cut1(len) == len - 2 * MaskLen                    \* points left after trimming once
 Cut2(len) == len - 4 * MaskLen                    \* ... twice
 RAbs(a)   == <<Abs(a[1]), a[2]>>
@@ -40,5 +41,5 @@ CutsConsistent   == /\ Cut2(n) = Cut1(Cut1(n))
 
 EmitGrid == Emit => PrintT(ToJson([n |-> n, mn |-> mn, d |-> d, p |-> p, max |-> Max,
                                    closest |-> Closest, center |-> Center,
-                                   cut1 |-> Cut1(n), cut2 |-> Cut2(n), mask |-> MaskLen]))
+                                   cut1 |-> Cut1(n), cut2 |-> Cut2(n), mask |-> MaskLen, eff |-> EffOrder]))
 =============================================================================
